@@ -28,3 +28,32 @@ REGISTRY["C14"] = {
          "shards": {"quick": 4, "thorough": 16}},
     ],
 }
+
+LOCKSTEP_TRUST = ("Trusted: the reference token game (harness/model, written from the BPMN rules quoted in the property statements), "
+                  "the goroutine-snapshot quiescence detector (an all-parked atomic snapshot is a fixpoint when no real-time timer is armed), "
+                  "schema.Parse. Goroutine schedules inside the engine are sampled, not enumerated.")
+
+REGISTRY["C01"] = {
+    "pkg": "props/c01",
+    "level": "exploration",
+    "level_text": ("rapid-generated block-structured programs (sequence, exclusive, parallel, inclusive, loop, conditional flows leaving tasks, "
+                   "embedded sub-processes, early end events, multi-merge; all nine task kinds; expr and XPath conditions, formal/informal) x data x "
+                   "answer plans x answer orders, run in lock-step against an independent BPMN token game: after every answer the engine is brought "
+                   "to an all-goroutines-parked fixpoint and the multiset of new task requests must equal the model's; at the end completion, "
+                   "sequence flows taken, end events, cease-flow trace count and variables must agree. Sampled exploration, no absence claim."),
+    "level_note": LOCKSTEP_TRUST,
+    "technique": "rapid property test: lock-step differential against a reference token-game model, quiescence by goroutine snapshot",
+    "rule": ("Cases are (program AST, default language, declaration-order seed, initial variables, per-task answer plans, answer schedule) drawn by rapid; "
+             "distinct = hash of that descriptor. Non-trivial = the program has >=1 gateway/loop/conditional-task block AND (>=2 requests pending at once at some step "
+             "OR a loop iteration was taken OR gateways of different kinds are nested). The main campaign constructs around listed findings (counted in "
+             "excluded_by_construction is implicit: generator options); a smaller unrestricted campaign keeps them and attributes a failure to a finding only if "
+             "structural predicate and symptom both match."),
+    "assumptions": ["no real-time timers are armed in generated programs (quiescence reasoning)",
+                    "end events inside sub-processes are not observable on the instance trace stream (engine filters them); only root-level end events are compared"],
+    "tests": [
+        {"name": "TestC01Lockstep", "checks": {"quick": 250, "thorough": 6000}, "shards": {"quick": 16, "thorough": 32},
+         "gomaxprocs": [4, 2, 1, 8]},
+        {"name": "TestC01Lockstep", "label": "TestC01Lockstep-unrestricted", "env": {"VERIF_UNRESTRICTED": "1"},
+         "checks": {"quick": 100, "thorough": 1500}, "shards": {"quick": 4, "thorough": 16}},
+    ],
+}
